@@ -260,8 +260,104 @@ def ld_reason(err):
     return "other"
 
 
+def relocatable_case(ctx, ci, r, forced=None):
+    """--wrap applied by a partial link (-r) of a subset of the objects; the final link (GNU ld, no
+    --wrap) and the run show which definitions the renamed references reach. Differential only."""
+    case = forced or gen(r, True)
+    for u in case["units"]:
+        u["kind"], u["forced"] = "obj", True
+    if not forced:
+        for n, sy in enumerate(case["syms"]):   # keep the final link resolvable: S and __wrap_S both exist
+            for k, nm in enumerate((sy["name"], "__wrap_" + sy["name"])):
+                if not any(nm in u["defs"] for u in case["units"]):
+                    u = r.choice(case["units"])
+                    u["defs"][nm] = dict(tag=900 + 2 * n + k, weak=False)
+                    u["refs"].pop(nm, None)
+    case["kind"] = "nopie"
+    d = ctx.scratch.dir("rcase", ci)
+    rec = xlink.Recipe(ctx, d)
+    objs = {u["idx"]: rec.obj(f"u{u['idx']}", unit_src(case, u), ("-O0", "-fno-pic")) for u in case["units"]}
+    decls = "".join(f"void view_u{u['idx']}(void);\n" for u in case["units"])
+    calls = "".join(f"  view_u{u['idx']}();\n" for u in case["units"])
+    mainobj = rec.obj("main", "#include <stdio.h>\n" + decls + "int main(void) {\n" + calls + '  printf("end\\n");\n  return 0;\n}\n', ("-O0", "-fno-pic"))
+    # units referencing __real_S must be inside the partial link (the final link has no --wrap)
+    inside = forced["inside"] if forced else [u["idx"] for u in case["units"] if r.random() < 0.6
+                                              or any(nm.startswith("__real_") for nm in u["refs"])] or [case["units"][0]["idx"]]
+    outside = [u["idx"] for u in case["units"] if u["idx"] not in inside]
+    wraps = ["--wrap=" + s["name"] for s in case["syms"]]
+    res = {}
+    for kind in ("ld", "wild"):
+        ro = rec.name(os.path.join(d, f"r.{kind}.o"), f"r.{kind}.o")
+        tools.fresh(ro)
+        a = ["-r", *wraps, *[objs[i] for i in inside], "-o", ro]
+        lr = tools.link(kind, a)
+        rec.step(("ld.bfd " if kind == "ld" else "$B_WILD/ld ") + " ".join(rec.sub(a)) + ("" if lr.ok else f"   # failed rc={lr.rc}"))
+        if not lr.ok or not os.path.exists(ro):
+            res[kind] = ("r-fails", lr.errtext().strip()[:300])
+            continue
+        exe = os.path.join(d, f"{kind}.out")
+        fl = rec.link("ld", ["-no-pie", mainobj, ro, *[objs[i] for i in outside]], exe)
+        if not xlink.linked_ok(fl, exe):
+            res[kind] = ("final-fails:" + ld_reason(fl.errtext()), fl.errtext().strip()[:300])
+            continue
+        rr = xlink.runprog(exe)
+        rec.step(f"./{kind}.out")
+        t, end = parse_transcript(rr.outtext())
+        res[kind] = ("ran", t) if end and rr.rc == 0 and not rr.timed_out else ("run-fails", rr.errtext()[:200])
+    ctx.note("relocatable-cases")
+    if res["ld"][0] != "ran":
+        ctx.inconclusive("relocatable: GNU ld -r --wrap result does not link or run")
+        return
+    fp = "r:" + sha(repr((inside, [(sorted(u["defs"]), sorted(u["refs"])) for u in case["units"]])))[:16]
+    if res["wild"] == res["ld"]:
+        ctx.held(fingerprint=fp, nontrivial=len(inside) >= 1 and any(u["refs"] for u in case["units"] if u["idx"] in inside))
+        return
+    if res["wild"][0] != "ran":
+        LIM.violation(f"relocatable:{res['wild'][0]}", f"wild -r --wrap output {res['wild'][0]} where GNU ld's -r output links and runs: "
+                      f"{res['wild'][1]}", case=ci, files=rec.files())
+        return
+    tl, tw = res["ld"][1], res["wild"][1]
+    sigs = {}
+    for label in sorted(set(tl) | set(tw)):
+        if tl.get(label) != tw.get(label):
+            uidx = int(label[1:label.index(":")])
+            nm = label.split(":")[1]
+            u = case["units"][uidx]
+            role = "definer" if nm in u["defs"] else ("weak-ref" if u["refs"][nm]["weak"] else "ref")
+            where = "inside" if uidx in inside else "outside"
+            sigs.setdefault(f"relocatable:bind:{role}:{name_class(nm)}:{where}-r:ld={describe_tag(case, tl.get(label, 0)).split('@')[0]}:"
+                            f"wild={describe_tag(case, tw.get(label, 0)).split('@')[0]}", label)
+    for sig, label in sigs.items():
+        LIM.violation(sig, f"{label}: after ld -r --wrap + final link prints {tl.get(label)}, after wild -r --wrap prints {tw.get(label)}",
+                      case=ci, files=rec.files(), info={"inside": inside})
+
+
+def pinned_cases():
+    def unit(i, defs=None, refs=None, kind="obj"):
+        return dict(idx=i, kind=kind, forced=True, defs=defs or {}, refs=refs or {})
+    base = dict(kind="nopie", thin=False, wrapopt="-Wl,--wrap={}")
+    return [
+        # no __wrap_S anywhere: GNU ld still redirects S -> __wrap_S (undefined => error)
+        dict(base, syms=[dict(name="w0", typ="func")], order=[0, 1, "M"], units=[
+            unit(0, defs={"w0": dict(tag=101, weak=False)}), unit(1, refs={"w0": dict(weak=False)})]),
+        # ... and a weak reference becomes null
+        dict(base, syms=[dict(name="w0", typ="data")], order=[0, 1, "M"], units=[
+            unit(0, defs={"w0": dict(tag=101, weak=False)}), unit(1, refs={"w0": dict(weak=True)})]),
+        # -r: __real_S must be renamed to S even when S is not defined inside the partial link
+        dict(base, rmode=True, inside=[1], syms=[dict(name="w0", typ="func")], order=[0, 1, "M"], units=[
+            unit(0, defs={"w0": dict(tag=101, weak=False)}),
+            unit(1, defs={"__wrap_w0": dict(tag=102, weak=False)}, refs={"w0": dict(weak=False), "__real_w0": dict(weak=False)})]),
+        # control: plain wrapper + __real_
+        dict(base, syms=[dict(name="w0", typ="func")], order=[0, 1, "M"], units=[
+            unit(0, defs={"w0": dict(tag=101, weak=False)}, refs={"__wrap_w0": dict(weak=False)}),
+            unit(1, defs={"__wrap_w0": dict(tag=102, weak=False)}, refs={"w0": dict(weak=False), "__real_w0": dict(weak=False)})]),
+    ]
+
+
 def one_case(ctx, ci, forced=None):
     r = rng("C33", ctx.seed, ci)
+    if (forced and forced.get("rmode")) or (not forced and r.random() < 0.15):
+        return relocatable_case(ctx, ci, r, forced)
     case = forced or gen(r, ctx.quick)
     d = ctx.scratch.dir("case", ci)
     rec = xlink.Recipe(ctx, d)
@@ -296,7 +392,9 @@ def one_case(ctx, ci, forced=None):
         if xlink.linked_ok(rw, outw):
             # what does the accepted program do?
             rr = xlink.runprog(outw, libdirs=libdirs)
-            LIM.violation(f"accept:ld-rejects({reason}):wild-links", f"GNU ld rejects the link ({rl.errtext().strip().splitlines()[0][:160]}) "
+            wd = "+".join(sorted({u["kind"] for u in case["units"] for nm in u["defs"] if nm.startswith("__wrap_")
+                                  and reason == "undefined-__wrap_S" and re.search("`" + nm + "'", rl.errtext())})) or "none"
+            LIM.violation(f"accept:ld-rejects({reason}):wrap-def={wd}:wild-links", f"GNU ld rejects the link ({rl.errtext().strip().splitlines()[0][:160]}) "
                           f"but wild links it; the program prints: {rr.outtext()[:300]!r}", case=ci, files=rec.files(),
                           info={"ld_stderr": rl.errtext()[:1000]})
         else:
@@ -342,7 +440,7 @@ def one_case(ctx, ci, forced=None):
         nref = sum(1 for u in case["units"] for nm in u["refs"])
         redirected = sum(1 for u in case["units"] if u["kind"] != "lib" for nm in u["refs"] if name_class(nm) in ("S", "__real_S"))
         ctx.held(fingerprint=fp, nontrivial=redirected >= 1 and nref >= 2,
-                 sample={"kind": case["kind"], "transcript": run_l.outtext()[:300]} if ci in (0, 1) else None)
+                 sample={"kind": case["kind"], "transcript": run_l.outtext()[:300]} if ci in (0, 1, 2, 3) else None)
         return
     sigs = {}
     for label in sorted(set(tl) | set(tw)):
@@ -357,6 +455,9 @@ def one_case(ctx, ci, forced=None):
         got = describe_tag(case, tw[label]) if label in tw else "no-line"
         sig = (f"bind:{role}:{name_class(nm)}:in={u['kind']}:S-def={where_defined(case, base, loaded)}:"
                f"wrap-def={where_defined(case, '__wrap_' + base, loaded)}:{typ}:ld={describe_tag(case, tl[label]) if label in tl else 'no-line'}:wild={got}")
+        if where_defined(case, "__wrap_" + base, loaded) == "none" and name_class(nm) == "S" and role != "definer":
+            sig = (f"bind:{role}:S:no-definition-of-__wrap_S:ld={describe_tag(case, tl[label]).split('@')[0] if label in tl else 'no-line'}:"
+                   f"wild={got.split('@')[0]}")
         sigs.setdefault(sig, label)
     if not sigs:
         sigs["run:exit-or-end-marker-differs"] = "-"
@@ -377,7 +478,14 @@ def main(ctx):
                        "archives follow all objects on the command line (ld is order-sensitive there; that is C03's subject)"]
     tools.wild()
     n = ctx.pick(100, 1200)
-    jobs = list(range(n))
+    jobs = [f"pinned{i}" for i in range(len(pinned_cases()))] + list(range(n))
     if ctx.replay is not None:
-        jobs = [int(ctx.replay["case"])]
-    pmap(lambda i: one_case(ctx, i), jobs, workers=12)
+        c = str(ctx.replay["case"])
+        jobs = [c if c.startswith("pinned") else int(c)]
+
+    def go(j):
+        if isinstance(j, str):
+            one_case(ctx, j, forced=pinned_cases()[int(j[6:])])
+        else:
+            one_case(ctx, j)
+    pmap(go, jobs, workers=12)
